@@ -297,6 +297,8 @@ class Gen:
             ps = ", ".join(f"{t} a{k}" for k in range(n))
             out.append(f"function wide({ps}) -> {t} {{\n  return ((a0 + a{n - 1}) + a{n // 2});\n}}\n")
         self.wide = wide
+        if r.random() < 0.1:
+            out.append(f"export function noop{r.randint(0, 9)}() -> void {{\n}}\n")  # a function with an empty body
         if r.random() < 0.06:
             # recursion far deeper than the interpreter allows: ends in the same RecursionError in
             # every process of the unchanged tree (the margin to the ~495-level limit is large)
